@@ -1,5 +1,5 @@
 From Coq Require Import ExtrOcamlBasic.
 From ChibiV Require Import Common.ExtractBase C01.Model C01.Spec C01.Prims Gen.C01_VmGuards Gen.C01_Stack C01.Recursion Gen.C01_Recursion.
 Extraction "model.ml" ext_base run_entry vm_table entry_safe spec
-  prim_substring prim_subbytes prim_cursor_to_index prim_make_vector prim_make_bytes prim_index_to_cursor fix_to_cur
+  prim_substring prim_subbytes prim_cursor_to_index prim_make_vector prim_make_bytes prim_index_to_cursor fix_to_cur prim_utf8_ref_checked prim_utf8_set in_boundsb
   gen_ensure_stack step write_sites site_ok.
